@@ -286,7 +286,7 @@ impl Report {
         let _ = std::fs::create_dir_all(evpath.parent().unwrap());
         std::fs::write(&evpath, serde_json::to_string_pretty(&ev).unwrap()).expect("write evidence");
 
-        println!(
+        out(&format!(
             "[{}] tier={} seed={} evaluations={} distinct_nontrivial={} wall={:.1}s verdict={}",
             self.property,
             ctx.tier.name(),
@@ -295,12 +295,12 @@ impl Report {
             g.distinct.len(),
             ctx.elapsed(),
             verdict
-        );
+        ));
         for (k, v) in g.counters.iter() {
-            println!("    {k} = {v}");
+            out(&format!("    {k} = {v}"));
         }
         for (sig, what) in known_hits.iter() {
-            println!("KNOWN-FINDING: property={} {} [{}]", self.property, what, sig);
+            out(&format!("KNOWN-FINDING: property={} {} [{}]", self.property, what, sig));
         }
         if !new_violations.is_empty() {
             let dir = PathBuf::from(VERIF_DIR).join("replays");
@@ -323,22 +323,22 @@ impl Report {
                     "case": v.replay,
                 });
                 let _ = std::fs::write(&path, serde_json::to_string_pretty(&body).unwrap());
-                println!("    violation: {} [{}]", v.what, v.signature);
-                println!("VIOLATION property={} replay={}", self.property, path.display());
+                out(&format!("    violation: {} [{}]", v.what, v.signature));
+                out(&format!("VIOLATION property={} replay={}", self.property, path.display()));
             }
             return 1;
         }
         if verdict == "inconclusive" {
             for r in g.inconclusive.iter() {
-                println!("INCONCLUSIVE property={} reason={}", self.property, r);
+                out(&format!("INCONCLUSIVE property={} reason={}", self.property, r));
             }
             if g.distinct.len() < floor.max(2) {
-                println!(
+                out(&format!(
                     "INCONCLUSIVE property={} reason=only {} distinct non-trivial cases (floor {})",
                     self.property,
                     g.distinct.len(),
                     floor
-                );
+                ));
             }
             return 2;
         }
@@ -364,10 +364,61 @@ pub fn load_known_findings() -> Vec<KnownFinding> {
     }
 }
 
-/// Silence the default panic hook (generators and probed APIs may panic; we
-/// catch and classify) while keeping a way to restore it.
+pub static LAST_PANIC: Mutex<String> = Mutex::new(String::new());
+
+static REAL_STDOUT: std::sync::atomic::AtomicI32 = std::sync::atomic::AtomicI32::new(-1);
+
+/// The repository prints progress messages on stdout/stderr from many entry points. Redirect both to
+/// /dev/null for the duration of a run and keep a private duplicate of the real stdout for verdict lines.
+pub fn capture_stdio() {
+    if std::env::var("VERIF_DEBUG").is_ok() {
+        return;
+    }
+    unsafe {
+        let saved = libc::dup(1);
+        let devnull = libc::open(b"/dev/null\0".as_ptr() as *const libc::c_char, libc::O_WRONLY);
+        if saved >= 0 && devnull >= 0 {
+            libc::dup2(devnull, 1);
+            libc::dup2(devnull, 2);
+            libc::close(devnull);
+            REAL_STDOUT.store(saved, std::sync::atomic::Ordering::SeqCst);
+        }
+    }
+}
+
+/// print a line on the real stdout
+pub fn out(line: &str) {
+    let fd = REAL_STDOUT.load(std::sync::atomic::Ordering::SeqCst);
+    if fd < 0 {
+        println!("{line}");
+        return;
+    }
+    let mut buf = line.as_bytes().to_vec();
+    buf.push(b'\n');
+    let mut off = 0;
+    while off < buf.len() {
+        let n = unsafe { libc::write(fd, buf[off..].as_ptr() as *const libc::c_void, buf.len() - off) };
+        if n <= 0 {
+            break;
+        }
+        off += n as usize;
+    }
+}
+
+
+/// Replace the default panic hook: probed APIs and generators may panic (caught and classified by
+/// the monitors), so nothing is printed; the last message + location is kept for diagnostics.
 pub fn quiet_panics() {
-    std::panic::set_hook(Box::new(|_| {}));
+    let verbose = std::env::var("VERIF_DEBUG_PANICS").is_ok();
+    std::panic::set_hook(Box::new(move |info| {
+        let msg = format!("{info}");
+        if verbose {
+            eprintln!("[panic] {msg}");
+        }
+        if let Ok(mut g) = LAST_PANIC.try_lock() {
+            *g = msg;
+        }
+    }));
 }
 
 pub fn hex64(v: u64) -> String {
